@@ -28,7 +28,18 @@ Definition conn_code (p : sid * conn) : list nat :=
 Definition client_code (p : cid * client) : list nat :=
   let '(c, cl) := p in match cst cl with Gone => [c; 0; 0] | Outer => [c; 1; 0] | Inner s => [c; 2; s] end.
 
-Definition observe (n : nat) (ops : list op) : list (list nat) * list (list nat) * list (list nat) * nat :=
+Definition in_use (st : state) : nat :=
+  length (filter (fun p => match loc (snd p) with Held _ => true | Idle => false end) (conns st)).
+
+(** number of server connections in use after each op (the harness waits for the pooler to
+    reach that number before it sends the next message) *)
+Fixpoint in_use_trace (st : state) (ops : list op) : list nat :=
+  match ops with
+  | [] => []
+  | o :: r => let st1 := fst (step st o) in in_use st1 :: in_use_trace st1 r
+  end.
+
+Definition observe (n : nat) (ops : list op) : list (list nat) * list (list nat) * list (list nat) * nat * list nat :=
   let '(st, ev) := run (init n) ops in
   (map ev_code ev, map conn_code (conns st), map client_code (clients st),
-   match monitor [] ev with Some _ => 1 | None => 0 end).
+   match monitor [] ev with Some _ => 1 | None => 0 end, in_use_trace (init n) ops).
